@@ -383,29 +383,40 @@ func forwarded(u *ssa.UnOp) ssa.Value {
 		if _, ok := a.X.(*ssa.MakeSlice); !ok {
 			return nil
 		}
-		instrs := u.Block().Instrs
+		blk := u.Block()
+		instrs := blk.Instrs
 		pos := -1
 		for i, in := range instrs {
 			if in == ssa.Instruction(u) {
 				pos = i
 			}
 		}
-		for i := pos - 1; i >= 0; i-- {
-			switch in := instrs[i].(type) {
-			case *ssa.Store:
-				if ia, ok := in.Addr.(*ssa.IndexAddr); ok && ia.X == a.X {
-					if ia.Index == a.Index {
-						return in.Val
-					}
-					return nil
-				}
-			case ssa.CallInstruction:
-				for _, arg := range in.Common().Args {
-					if arg == a.X {
+		// … or in the blocks before it, as long as each has a single predecessor (a guard that returns early was put between
+		// the store and the load: every path to the load still runs through the store, in this order)
+		for hops := 0; hops < 8; hops++ {
+			for i := pos - 1; i >= 0; i-- {
+				switch in := instrs[i].(type) {
+				case *ssa.Store:
+					if ia, ok := in.Addr.(*ssa.IndexAddr); ok && ia.X == a.X {
+						if ia.Index == a.Index {
+							return in.Val
+						}
 						return nil
+					}
+				case ssa.CallInstruction:
+					for _, arg := range in.Common().Args {
+						if arg == a.X {
+							return nil
+						}
 					}
 				}
 			}
+			if len(blk.Preds) != 1 || blk.Preds[0] == blk {
+				return nil
+			}
+			blk = blk.Preds[0]
+			instrs = blk.Instrs
+			pos = len(instrs)
 		}
 		return nil
 	case *ssa.FieldAddr:
